@@ -1979,13 +1979,18 @@ output(std::ostream &out, int indent_level, CPPScope *scope, bool) const {
       break;
 
     case UNARY_MINUS:
-      out << '-';
-      _u._op._op1->output(out, indent_level, scope, false);
-      break;
-
     case UNARY_PLUS:
-      out << '+';
-      _u._op._op1->output(out, indent_level, scope, false);
+      {
+        // Keep "- -4" from turning into the decrement operator "--4".
+        char sign = (_u._op._operator == UNARY_MINUS) ? '-' : '+';
+        std::ostringstream operand;
+        _u._op._op1->output(operand, indent_level, scope, false);
+        out << sign;
+        if (!operand.str().empty() && operand.str()[0] == sign) {
+          out << ' ';
+        }
+        out << operand.str();
+      }
       break;
 
     case UNARY_STAR:
